@@ -101,6 +101,15 @@ def decide_on_representatives(repo, fi, name):
     return False, f"{name}{tuple(args)!r:.120} gives {got!r:.160}, the specification {want!r:.160}"
 
 
+def load_rows(chk, repo):
+    """C01-R10: a pixel load evaluated on model images (vlib/loadmodel.py): every output row is decoded from exactly the sample
+    bytes of its own line, for every selection, line count and records_per_chunk of the grid"""
+    from .load_rules import load_rules
+    load_rules(chk, repo, "C01-R10", ("rows", "confined"),
+               "model loads: each output row is decoded from the sample bytes [data.start, data.stop) of its own line (requests inside the file, rows cut out at their own offsets)",
+               thorough=chk.tier == "thorough")
+
+
 def trace_positions(chk, repo):
     """C01-R9: the metadata pass evaluated on model image files (vlib/tracemodel.py): the byte ranges that come back are the
     lines' own absolute file positions, for every line count and records_per_chunk of the grid"""
@@ -152,8 +161,9 @@ def run(chk, repo):
     chk.attempt(trace_positions, chk, repo)
     chk.attempt(r5, chk, repo, L, covered_by="trace_positions", rules=("C01-R5",))
     chk.attempt(r6, chk, repo, L)
-    chk.attempt(r7, chk, repo)
-    chk.attempt(r8, chk, repo)
+    chk.attempt(load_rows, chk, repo)
+    chk.attempt(r7, chk, repo, covered_by="load_rows")
+    chk.attempt(r8, chk, repo, covered_by="load_rows")
     chk.count("functions", 20)
 
 
